@@ -214,13 +214,18 @@ class Check(PropertyCheck):
     ]
     manifest = {
         'text': ('Theorems over Model/QnMatch.v + Model/Privacy.v for every pattern, name and rule list (unbounded): '
-                 'C13_translate_meaning (qnmatch = the documented glob meaning, whole-name, for every pattern without an '
-                 'inverted range), C13_qnmatch_characterised / C13_inverted_range_raises (re.error exactly for inverted ranges), '
-                 'C13_bad_range_refuted ([z-a]), C13_meaning_is_relational, C13_precedence, C13_exact_beats_patterns, '
-                 'C13_last_rule_meaning, C13_default_rule, C13_cache_transparent, C13_parse_rule, '
-                 'C13_main_module_refuted / C13_documentable_partial. Tie: exhaustive '
+                 'C13_translate_meaning / C13_translate_meaning_declarative (the regex re.compile reads from translate(p) accepts '
+                 'exactly the names the manual says p matches, whole-name, for every pattern without an inverted range), '
+                 'C13_qnmatch_characterised / C13_inverted_range_raises (re.error exactly for inverted ranges), '
+                 'C13_matcher_decides / C13_linear_matcher_decides (the executable matchers decide the declarative language '
+                 'matches_re), C13_literal_pattern / C13_prefix_star / C13_prefix_starstar, C13_precedence_total / '
+                 'C13_privacy_raises_iff (total characterisation of privacyClass for every rule list), C13_precedence, '
+                 'C13_exact_beats_patterns, C13_default_rule, C13_cache_transparent / C13_views_cache_transparent, '
+                 'C13_visible_iff / C13_hidden_ancestor_hides / C13_private_iff, C13_parse_rule / C13_parse_rule_errors, '
+                 'C13_bad_range_refuted, C13_main_module_refuted / C13_documentable_partial. Tie: exhaustive '
                  'pattern x name correspondence against the real qnmatch (patterns <= 4 quick / <= 5 thorough over 11 '
-                 'characters x 341 names), random longer patterns, all rule lists <= 3 against the real System.privacyClass.'),
+                 'characters x 341 names), random longer patterns, all rule lists <= 3 (also with meaningless rules) against the '
+                 'real System.privacyClass / isVisible / isPrivate, every underscore shape of a short name, parse error messages.'),
         'note': ('Trusted: Coq kernel, extraction + OCaml driver, the Python harness, Spec/ReFrag.v as the meaning of CPython re '
                  'on the emitted fragment (validated, not proved). Known findings: inverted range aborts; Module.__main__ forced PRIVATE.'),
         'technique': 'Coq proof (translate -> token view -> re reader -> matcher) + exhaustive model/implementation correspondence',
@@ -470,6 +475,25 @@ class Check(PropertyCheck):
             o = qn_oracle(p, n, i)
             if o:
                 self.add(out, Violation('oracle', o, case={'kind': 'qnmatch', 'pattern': p, 'name': n}, observed=i))
+        # the backtracking-free matcher of Spec/ReFrag.v (op 10) on the same pairs and on star-heavy long inputs
+        heavy = []
+        for k in range(2, 6 if self.tier == 'quick' else 8):      # the real re backtracks polynomially of degree k on these
+            for p, n in [('*a' * k + '*b', 'a' * (3 * k)), ('**.' * k + 'x', '.'.join(['ab'] * (2 * k)) + '.x'),
+                         ('*[!.]' * k, 'ab' * k + '.'), ('?*' * k + '[a-c]', 'abc' * k), ('**a' * k, 'a' * (4 * k) + 'b')]:
+                heavy.append((p, n))
+        lin = self.model('qnmatch', [enc([10, p, n]) for p, n in pairs + heavy])
+        impl_h = lib.run_impl_worker('c13_qnmatch.py', [['qn1', p, n] for p, n in heavy])
+        self.stats['table_matcher_pairs'] = len(pairs) + len(heavy)
+        for (p, n), i, m in zip(pairs + heavy, impl + impl_h, lin):
+            m = dec(m)
+            self.evaluations += 1
+            if m != i:
+                self.add(out, Violation('correspondence', 'Model qnmatch (table matcher) and pydoctor.qnmatch.qnmatch disagree',
+                                        case={'kind': 'qnmatch', 'pattern': p, 'name': n}, expected=m, observed=i))
+        for (p, n), i in zip(heavy, impl_h):
+            o = qn_oracle(p, n, i)
+            if o:
+                self.add(out, Violation('oracle', o, case={'kind': 'qnmatch', 'pattern': p, 'name': n}, observed=i))
         self.count('distinct_nontrivial', nt)
         for p, n in pairs[:2] + pairs[len(pairs) // 2:len(pairs) // 2 + 1]:
             self.sample({'pattern': p, 'name': n})
@@ -532,9 +556,14 @@ class Check(PropertyCheck):
         self.stats['parse_cases'] = len(vals)
         for v, i, m in zip(vals, impl, mod):
             m = dec(m)
-            mm = [0, m[1], lib.txt(m[2])] if m[0] == 0 else [1]
+            if m[0] == 0:
+                mm = [0, m[1], lib.txt(m[2])]
+            elif m[1] == 1:
+                mm = [1, 1, "--privacy: malformatted value %r should be like '<privacy>:<PATTERN>'.\n" % v, 1]
+            else:
+                mm = [1, 2, "--privacy: unknown privacy value %r should be one of 'HIDDEN', 'PRIVATE', 'PUBLIC'\n" % lib.txt(m[2]), 1]
             self.evaluations += 1
-            self.count('parse_' + ('accepted' if i[0] == 0 else 'rejected'))
+            self.count('parse_' + ('accepted' if i[0] == 0 else 'rejected_kind_%s' % i[1]))
             if mm != i:
                 self.add(out, Violation('correspondence', 'Model.Privacy.parse_privacy_tuple and utils.parse_privacy_tuple disagree',
                                         case={'kind': 'parse', 'value': v}, expected=mm, observed=i))
@@ -560,7 +589,7 @@ class Check(PropertyCheck):
                       [[1, 'shp.?'], [0, '*.*.*.*.*']], [[2, 'other.**'], [0, '[!s]**'], [1, 'shp.funcs.x.*']]]
         cases = [{'system': 'shapes', 'rules': rl, 'queries': [['obj', f] for f in fulls]} for rl in rule_lists]
         impl = lib.run_impl_worker('c13_privacy.py', cases, jobs=len(cases))
-        mod = self.model('qnmatch', [enc([5, [[l, p] for l, p in c['rules']], [[o[0], o[1], o[2], o[3]] for o in obs]])
+        mod = self.model('qnmatch', [enc([5, [[l, p] for l, p in c['rules']], [model_query(o) for o in obs]])
                                      for c, obs in zip(cases, impl)])
         for c, obs, m in zip(cases, impl, mod):
             m = dec(m)
@@ -606,7 +635,20 @@ class Check(PropertyCheck):
                         rules = [[l, t if k == 'exact' else p] for l, k in combo]
                         # the target twice (cache), then every object of the System in a random order, then the target again
                         qs = [['obj', t], ['obj', t]] + [['obj', f] for f in r.sample(fulls, len(fulls))] + [['obj', t]]
+                        # isVisible (walks up the parents) and isPrivate, interleaved with the same cache
+                        qs += [['vis', t], ['isp', t]] + [['vis', f] for f in r.sample(fulls, 6)] + \
+                            [['isp', f] for f in r.sample(fulls, 3)]
                         cases.append({'rules': rules, 'queries': qs, 'enumerated': True})
+        # the same with a third sort of rule, a meaningless pattern (inverted range): C13_precedence_total / known finding
+        atoms3 = atoms + [(l, 'bad') for l in range(3)]
+        for t in targets[:1] if self.tier == 'quick' else targets[:3]:
+            p = pats_for(t)[0]
+            for n in range(0, 4):
+                for combo in itertools.product(atoms3, repeat=n):
+                    if not any(k == 'bad' for _, k in combo):
+                        continue
+                    rules = [[l, t if k == 'exact' else p if k == 'pattern' else '[z-a]*'] for l, k in combo]
+                    cases.append({'rules': rules, 'queries': [['obj', t], ['vis', t], ['obj', t], ['isp', t]], 'enumerated': True})
         self.stats['enumerated_rule_lists'] = len(cases)
         # random longer rule lists over many patterns, all objects queried with repeats, plus kind-less objects
         nrand = 150 if self.tier == 'quick' else 4000
@@ -620,7 +662,7 @@ class Check(PropertyCheck):
                 if p.count('*') > 5:
                     p = '**'
                 rules.append([r.randrange(3), p])
-            qs: List[List[str]] = [['obj', r.choice(fulls)] for _ in range(r.randint(3, 12))]
+            qs: List[List[str]] = [[r.choice(['obj', 'obj', 'vis', 'vis', 'isp']), r.choice(fulls)] for _ in range(r.randint(3, 14))]
             if r.random() < 0.3:
                 g = ['ghost', r.choice(fulls), r.choice(['ghost', '_g', 'Cls', '__main__'])]
                 qs.insert(r.randrange(len(qs)), g)
@@ -639,7 +681,7 @@ class Check(PropertyCheck):
         impl = lib.run_impl_worker('c13_privacy.py', cases, jobs=16)
         minputs = []
         for c, obs in zip(cases, impl):
-            minputs.append(enc([5, [[l, p] for l, p in c['rules']], [[o[0], o[1], o[2], o[3]] for o in obs]]))
+            minputs.append(enc([5, [[l, p] for l, p in c['rules']], [model_query(o) for o in obs]]))
         mod = self.model('qnmatch', minputs)
         nt = 0
         for c, obs, m in zip(cases, impl, mod):
@@ -647,9 +689,9 @@ class Check(PropertyCheck):
             self.evaluations += len(obs)
             self.count('rules_len_%d' % len(c['rules']))
             for k, (o, mm) in enumerate(zip(obs, m)):
-                full, name, has_kind, is_mod, res = o
+                full, name, has_kind, is_mod, res = o[:5]
                 case = {'kind': 'privacy', 'rules': c['rules'], 'queries': c['queries'], 'index': k}
-                self.count('level_' + (LEVELS[res[1]] if res[0] == 0 else 'error_%s' % (res[1],)))
+                self.count(['level_', 'visible_', 'isprivate_'][o[5]] + ((LEVELS[res[1]] if o[5] == 0 else str(bool(res[1]))) if res[0] == 0 else 'error_%s' % (res[1],)))
                 if mm != res:
                     self.add(out, Violation('correspondence', 'Model.Privacy and the real privacyClass disagree on %s (query %d)'
                                             % (full, k), case=case, expected=mm, observed=res))
@@ -777,10 +819,11 @@ class Check(PropertyCheck):
                 if c.get('kind') == 'privacy' and v.observed == [1, 1] and \
                         any(glob_inverted(glob_lex(p)) for _, p in c['rules']):
                     return k
-            if m.get('class') == 'main_module' and c.get('kind') == 'privacy':
-                q = c['queries'][c['index']]
-                if q[0] == 'obj' and q[1].rpartition('.')[2] == '__main__' and v.observed == [0, 1] and \
-                        isinstance(v.expected, dict) and v.expected.get('is_module') == 1:
+            if m.get('class') == 'main_module' and c.get('kind') == 'privacy' and isinstance(v.expected, dict) and \
+                    v.expected.get('main_module_involved') and v.observed[0] == 0:
+                # the forced PRIVATE of a module named __main__: its own level / isPrivate, or isVisible of a member of it
+                qk = v.expected.get('query_kind')
+                if (qk == 0 and v.observed == [0, 1]) or (qk == 2 and v.observed == [0, 1]) or (qk == 1 and v.observed == [0, 1]):
                     return k
         return None
 
@@ -805,7 +848,7 @@ class Check(PropertyCheck):
             i = lib.run_impl_worker('c13_qnmatch.py', [['parse', c['value']]])[0]
             o = parse_oracle(c['value'], i)
             print('value     :', repr(c['value']))
-            print('observed  :', i, '([0, level, pattern] accepted, [1] rejected)')
+            print('observed  :', i, '([0, level, pattern] accepted, [1, kind, message, exit status] rejected)')
             print('property  :', o or 'holds on this input')
             return 1 if o else 0
         if kind == 'privacy':
@@ -814,7 +857,9 @@ class Check(PropertyCheck):
             print('rules (command-line order):', [(LEVELS[l], p) for l, p in c['rules']])
             for k, o in enumerate(obs):
                 msg = privacy_oracle(c['rules'], o)
-                print('query %d: %s -> %s   %s' % (k, o[0], (LEVELS[o[4][1]] if o[4][0] == 0 else 'raised %s' % (o[4][1],)),
+                shown = 'raised %s' % (o[4][1],) if o[4][0] != 0 else LEVELS[o[4][1]] if o[5] == 0 else \
+                    '%s %s' % (['', 'isVisible', 'isPrivate'][o[5]], bool(o[4][1]))
+                print('query %d: %s -> %s   %s' % (k, o[0], shown,
                                                   ('PROPERTY: ' + msg) if msg else 'as documented'))
                 if msg and k == c.get('index', k):
                     rc = 1
@@ -839,9 +884,20 @@ def parse_oracle(value: str, obs: Any) -> Optional[str]:
             want = [0, table[key], parts[1].strip()]
         elif not lv.isascii():
             return None     # non-ASCII level spellings: the manual says nothing; the model/implementation tie covers them
-    if obs != want:
+    if (obs if obs[0] == 0 else [1]) != want:
         return 'parse_privacy_tuple(%r) -> %s, documented %s' % (value, obs, want)
+    if obs[0] != 0 and obs[3] != 1:
+        return 'parse_privacy_tuple(%r) exits with status %r, an error exit is status 1' % (value, obs[3])
     return None
+
+
+def model_query(o: List[Any]) -> List[Any]:
+    """observation row of the worker -> query of the model: the object, the kind of query, its parents"""
+    return [o[0], o[1], o[2], o[3], o[5], [[p[0], p[1], p[2], p[3]] for p in o[6]]]
+
+
+def is_main_module(d: List[Any]) -> bool:
+    return bool(d[3]) and d[1] == '__main__'
 
 
 def privacy_violation(case: dict, o: List[Any]) -> Optional[Violation]:
@@ -849,17 +905,32 @@ def privacy_violation(case: dict, o: List[Any]) -> Optional[Violation]:
     if not msg:
         return None
     want, _ = precedence_oracle(case['rules'], o[0], o[1])
-    return Violation('oracle', msg, case=case, expected={'level': want, 'is_module': o[3], 'name': o[1]}, observed=o[4])
+    chain = [o] + (o[6] if o[5] == 1 else [])
+    return Violation('oracle', msg, case=case,
+                     expected={'level': want, 'is_module': o[3], 'name': o[1], 'query_kind': o[5],
+                               'main_module_involved': any(is_main_module(d) for d in chain)}, observed=o[4])
 
 
 def privacy_oracle(rules: List[List[Any]], o: List[Any]) -> Optional[str]:
-    full, name, has_kind, is_mod, res = o
-    if not has_kind:
+    full, name, has_kind, is_mod, res, qkind, parents = o
+    chain = [o[:4]] + ([p for p in parents] if qkind == 1 else [])
+    if not all(d[2] for d in chain):
         return None         # objects without a kind are never produced by the builder: outside the statement
+    rs = [(LEVELS[l], p) for l, p in rules]
     want, _ = precedence_oracle(rules, full, name)
+    what = ['privacyClass', 'isVisible', 'isPrivate'][qkind]
     if res[0] != 0:
-        return '%s: privacyClass raised (error class %s) under rules %s; the documented level is %s' % (
-            full, res[1], [(LEVELS[l], p) for l, p in rules], LEVELS[want])
-    if res[1] != want:
-        return '%s: privacy %s under rules %s; documented: %s' % (full, LEVELS[res[1]], [(LEVELS[l], p) for l, p in rules], LEVELS[want])
+        return '%s: %s raised (error class %s) under rules %s; the documented level is %s' % (full, what, res[1], rs, LEVELS[want])
+    if qkind == 0:
+        if res[1] != want:
+            return '%s: privacy %s under rules %s; documented: %s' % (full, LEVELS[res[1]], rs, LEVELS[want])
+    elif qkind == 2:
+        if bool(res[1]) != (want != 2):
+            return '%s: isPrivate %s under rules %s; documented level %s' % (full, bool(res[1]), rs, LEVELS[want])
+    else:
+        levels = [precedence_oracle(rules, d[0], d[1])[0] for d in chain]
+        vis = all(l != 0 for l in levels)
+        if bool(res[1]) != vis:
+            return '%s: isVisible %s under rules %s; documented levels of the object and its ancestors: %s' % (
+                full, bool(res[1]), rs, [(d[0], LEVELS[l]) for d, l in zip(chain, levels)])
     return None
